@@ -134,6 +134,8 @@ type lroutine struct {
 	// noMinLwork: the documented minimum of lwork is only a necessary condition
 	// (nested routines need more); valid bases use the query optimum and -1 only.
 	noMinLwork bool
+	// variants: number of content/sub-range variants enumerated inside a case (e.v["#init"]).
+	variants int
 	// noWorkFaultOnEmpty: len(work) is only examined for non-empty problems.
 	pos map[string]int
 }
